@@ -336,3 +336,52 @@ def write_evidence(env, coverage, assumptions, violations):
 
 def chash(s):
     return hashlib.sha256(s.encode("utf-8", "replace")).hexdigest()[:16]
+
+
+# ----------------------------------------------------------------------------
+# generic two-sided run for line-oriented modes
+
+def run_both(env, name, mode, text, model_args=(), release=False, timeout=900):
+    """Runs `nsverif <mode> in out` and `nsmodel <mode> <model_args> in out`; returns
+    (impl_lines | None, model_lines | None, error_text)."""
+    inp = os.path.join(env.work, name + ".in")
+    open(inp, "w").write(text)
+    oi = os.path.join(env.work, name + ".impl")
+    om = os.path.join(env.work, name + ".model")
+    for p in (oi, om):
+        if os.path.exists(p):
+            os.remove(p)
+    rc1, o1 = sh([harness_bin(release), mode, inp, oi], timeout=timeout)
+    rc2, o2 = sh([NSMODEL, mode] + list(model_args) + [inp, om], timeout=timeout)
+    li = open(oi).read().splitlines() if rc1 == 0 and os.path.exists(oi) else None
+    lm = open(om).read().splitlines() if rc2 == 0 and os.path.exists(om) else None
+    return li, lm, (("impl rc=%s: %s" % (rc1, o1[-600:])) if rc1 else "") + (("model rc=%s: %s" % (rc2, o2[-600:])) if rc2 else "")
+
+
+def group_by_header(lines, is_header):
+    groups = []
+    cur = None
+    for l in lines or []:
+        if is_header(l):
+            cur = [l]
+            groups.append(cur)
+        elif cur is not None:
+            cur.append(l)
+    return groups
+
+
+def ddmin_lines(lines, pred, keep_head=1):
+    """Greedy one-at-a-time removal of lines (after the first keep_head) while pred holds."""
+    cur = list(lines)
+    changed = True
+    while changed and len(cur) > keep_head + 1:
+        changed = False
+        i = keep_head
+        while i < len(cur):
+            cand = cur[:i] + cur[i + 1:]
+            if pred(cand):
+                cur = cand
+                changed = True
+            else:
+                i += 1
+    return cur
